@@ -51,10 +51,22 @@ SCENARIOS = {
                       [('connect-again',), ('receive', None),
                        ('receive', None)],
                       {}),
+    # the same endings on a namespace of the client's choosing
+    'final-loss-ns': (['e1', 'loss'], [('receive', None), ('receive', None)],
+                      {'reconnection': False, 'namespace': '/chat'}),
+    'emit-final-ns': (['loss'], [('emit',), ('wait-final',), ('call',),
+                                 ('emit',)],
+                      {'reconnection': True, 'reconnect_fails': True,
+                       'namespace': '/chat'}),
     'emit-final': (['loss'], [('emit',), ('wait-final',), ('call',),
                               ('emit',)],
                    {'reconnection': True, 'reconnect_fails': True}),
 }
+
+
+def NSP(opts):
+    ns = opts.get('namespace', '/')
+    return '' if ns == '/' else ns + ','
 
 
 def scenario_for(name):
@@ -96,7 +108,8 @@ def scenario_for(name):
                 def answer():
                     if w.eio.state != 'connected':
                         return
-                    sc.client._handle_eio_message('0{"sid":"S%d"}' % n)
+                    sc.client._handle_eio_message('0%s{"sid":"S%d"}' % (
+                        NSP(opts), n))
                     if n >= 2 and opts.get('greeting'):
                         deliver_ref[0](opts['greeting'])
                     if n >= 2:
@@ -109,7 +122,7 @@ def scenario_for(name):
         if opts.get('reconnect_fails'):
             w.connect_script = ['ok', 'fail']
         try:
-            sc.connect('http://h')
+            sc.connect('http://h', namespace=opts.get('namespace', '/'))
         finally:
             scmod.Event = saved_event
         inline[0] = False
@@ -138,7 +151,7 @@ def scenario_for(name):
 
         def deliver(ev):
             st['arrived'].append(ev)
-            sc.client._handle_eio_message('2["%s",1]' % ev)
+            sc.client._handle_eio_message('2%s["%s",1]' % (NSP(opts), ev))
             st['completed'] += 1
 
         deliver_ref[0] = deliver
@@ -275,7 +288,7 @@ def judge(name, out):
         elif '2["x",1]' not in out['outbox']:
             v.append(('C19/emit-lost', f'{name}: emit() returned but the '
                       f'event was not sent: {out["outbox"]}'))
-    if name == 'emit-final':
+    if name in ('emit-final', 'emit-final-ns'):
         seen_final = False
         for r in out['results']:
             # an emit that got through before the loss is fine; afterwards
@@ -301,7 +314,7 @@ def judge(name, out):
         if got != arrived:
             v.append(('C19/missing-event', f'{name}: got {got}, arrived '
                       f'{arrived}'))
-    if name == 'final-loss':
+    if name in ('final-loss', 'final-loss-ns'):
         if len(out['results']) == 2 and \
                 out['results'][1][:2] != ('exc', 'DisconnectedError'):
             v.append(('C19/no-disconnected-error', f'{name}: '
